@@ -702,6 +702,55 @@ def _bound_cases():
     return out
 
 
+# round 6: CHAINS of substitution steps (evaluate_symbolic on the result of evaluate_symbolic ...), theorem
+# C12_subst_chain.  The value must be the value of the WRITTEN formula in the scope the steps denote (later steps give
+# the scope the terms of earlier steps are read in) -- which is not the scope of the joint mapping.
+def _n(ty, val):
+    return {'num': tv(ty, val)}
+
+
+def _x(e):
+    return {'expr': e}
+
+
+CHAIN_E1 = b('add', v('k'), _sm('k', c(0), v('n'), b('mul', v('c'), v('k'))))           # k free and bound
+CHAIN_E2 = b('sub', b('mul', v('a'), v('b')), u('floor', b('div', v('a'), c(2))))
+CHAIN_E3 = b('add', ['ite', b('lt', v('a'), v('b')), v('a'), b('mul', c(2), v('b'))], _sm('i', c(1), v('n'), b('mul', v('i'), v('x'))))
+CHAINS = [
+    # (formula, steps, scope of the final evaluation)
+    (CHAIN_E1, [{'k': _x(v('c'))}, {'c': _n('int', 2), 'n': _n('int', 3)}], {}),                       # 14, not 16 / 17
+    (CHAIN_E1, [{'k': _x(v('c'))}, {'c': _x(v('k'))}], {'k': tv('int', 2), 'n': tv('int', 3)}),        # capture in step 2: dropped
+    (CHAIN_E1, [{'k': _x(v('m'))}, {'m': _x(b('add', v('c'), c(1)))}, {'c': _n('int', 2)}], {'n': tv('int', 3)}),
+    (CHAIN_E1, [{'c': _n('int', 2)}, {'k': _n('int', 10)}, {'n': _n('int', 3)}], {}),
+    (CHAIN_E1, [{'k': _n('int', 10)}, {'c': _x(v('m'))}, {'m': _x(v('n'))}], {'n': tv('int', 3)}),
+    (CHAIN_E1, [{'n': _x(v('k'))}, {'k': _n('int', 2)}], {'c': tv('int', 5)}),                          # limit gets the free k
+    (CHAIN_E2, [{'a': _x(v('b'))}, {'b': _n('int', 7)}], {}),                                            # not the joint mapping
+    (CHAIN_E2, [{'a': _x(v('b')), 'b': _x(v('a'))}, {'a': _x(v('b')), 'b': _x(v('a'))}],
+     {'a': tv('int', 7), 'b': tv('float', F(-5, 2))}),                                                   # swap twice = identity
+    (CHAIN_E2, [{'a': _n('int', 3)}, {'b': _x(v('a'))}, {'a': _n('int', -5)}], {}),                     # a re-introduced: 3*(-5) - 1
+    (CHAIN_E2, [{'a': _x(b('add', v('a'), c(1)))}, {'a': _x(b('add', v('a'), c(1)))}, {'a': _x(b('mul', v('a'), c(2)))}],
+     {'a': tv('int', 3), 'b': tv('time', F(1, 3))}),                                                     # the same name thrice
+    (CHAIN_E2, [{'a': _n('time', F(7, 3))}, {'b': _n('time', F(-1, 2))}], {}),
+    (CHAIN_E2, [{'b': _n('float', F(-5, 2))}, {'a': _x(v('x'))}, {'x': _n('int', 9)}], {}),
+    (CHAIN_E3, [{'a': _x(v('x')), 'x': _x(v('a'))}, {'x': _n('int', 2), 'n': _n('int', 3)}], {'a': tv('int', 4), 'b': tv('int', 3)}),
+    (CHAIN_E3, [{'x': _x(b('mul', v('a'), v('b')))}, {'a': _x(v('b'))}, {'b': _n('int', 3)}], {'n': tv('int', 2)}),
+    (CHAIN_E3, [{'n': _x(v('m'))}, {'m': _x(b('add', v('n'), c(1)))}, {'n': _n('int', 1)}],
+     {'a': tv('float', F(1, 2)), 'b': tv('float', F(3, 4)), 'x': tv('int', 5)}),
+]
+
+
+def _chain_cases():
+    out = []
+    for e, steps, sc in CHAINS:
+        for path in ('in_scope', 'exact'):
+            if path == 'exact' and any(t['ty'] == 'float' for t in sc.values()):
+                continue
+            for route in ('str', 'sym'):
+                out.append({'kind': 'chain', 'expr': e, 'route': route, 'steps': steps, 'scope': sc, 'path': path,
+                            'family': 'det:chain'})
+    return out
+
+
 def det_cases(tier, usable):
     return _magn_cases(tier) + _api_cases(usable) + _floor_cases() + _cmp_cases() + _hist_cases(usable) + _name_cases(tier) + _reserved_cases() + \
-        _shape_cases() + _lenbc_cases() + _xobj_cases(tier) + _bound_cases()
+        _shape_cases() + _lenbc_cases() + _xobj_cases(tier) + _bound_cases() + _chain_cases()
